@@ -310,6 +310,11 @@ def _judge(cfg, data, mode, k, real, out, collect=True):
             return None
         if after == ("absent",):
             return "dest-lost"
+        # (auditor) narrower classes, so that the zip-member finding does not absorb other wrong contents
+        if after == ("corrupt",):
+            return "dest-corrupt"  # unreadable archive / compressed file
+        if after[0] == "archive" and old[0] == "archive" and not set(old[1]) <= set(after[1]):
+            return "dest-members-lost"  # readable archive that lost previous members
         return "dest-other"
 
     commit_idx = min([i for i, c in enumerate(tr) if c[0] in ("unlink", "rename", "zip_data") and "dest" in c[1:]] or [len(tr)])
@@ -321,7 +326,7 @@ def _judge(cfg, data, mode, k, real, out, collect=True):
         # the injected error was swallowed below cogent3 (e.g. zipfile retries open('r+b') as 'w+b') and the
         # write went on: it must then be a complete write
         if after != new:
-            res.append((f"fault:{tclass}:{call}:dest-other", f"OSError raised by call {k} ({call}) was swallowed, the write reported success but the destination is not the new content", new, after))
+            res.append((f"fault:{tclass}:{call}:{symptom() or 'dest-other'}", f"OSError raised by call {k} ({call}) was swallowed, the write reported success but the destination is not the new content", new, after))
         if left:
             res.append((f"fault:{tclass}:{call}:temp-left", f"OSError raised by call {k} ({call}) was swallowed, the write reported success but temporary files stay behind", [], left))
     elif mode == "fault":
